@@ -91,7 +91,9 @@ class CustomOperationGenerator:
         if not self._class_def.body:
             self._class_def.body.append(ast.Pass())
 
+        imports_count = len(self.argument_generator.imports)
         self.argument_generator.add_custom_scalar_imports()
+        self._imports.extend(self.argument_generator.imports[imports_count:])
 
         self._class_def.lineno = len(self._imports) + 3
 
